@@ -233,3 +233,26 @@ def closure_arg(fn, call, suffix):
             if kind == "assign" and pl["rv"]["r"] == "agg" and suffix in (pl["rv"].get("closure") or ""):
                 return True
     return False
+
+
+def ref_local(fn, o, depth=0):
+    """local L such that operand o is `&L` / `&mut L` (through reborrows of once-assigned temporaries), else None"""
+    p = o.get("m") or o.get("c")
+    if p is None or depth > 6:
+        return None
+    if len(p) == 1 and not fn.locals[p[0]].startswith("&"):
+        return p[0]
+    d = fn.single_def(p[0])
+    if d is None or d[1] != "assign":
+        return None
+    rv = d[2]["rv"]
+    if rv["r"] == "ref":
+        q = rv["p"]
+        if len(q) == 1:
+            return q[0] if not fn.locals[q[0]].startswith("&") else ref_local(fn, {"c": [q[0]]}, depth + 1)
+        if len(q) == 2 and q[1] == "*":
+            return ref_local(fn, {"c": [q[0]]}, depth + 1)
+        return None
+    if rv["r"] in ("use", "cast"):
+        return ref_local(fn, rv["o"], depth + 1)
+    return None
